@@ -1,4 +1,212 @@
+/* eng_mempool.c - C20: allocation histories against an address/stamp ledger.
+ *
+ * Plan lines:
+ *   INIT szi numi kind sched     obj size palette index, objects-per-chunk palette index,
+ *                                kind 0 dynamic pool, 1 static thread-local pool used by 1 thread,
+ *                                2 static thread-local pool used by 2 threads under the baton
+ *   A n        allocate n objects (thread t = a[1] for kind 2)
+ *   F sel n    free n live objects starting at ledger position sel (mod)
+ *   V          verify every live object's full-size stamp
+ * Oracle: each returned address is 8-aligned, not live, and [p,p+sz) is disjoint from every live
+ * object; every live object keeps its stamp until freed.
+ */
 #include "core.h"
-static void g(plan *p, uint64_t seed, const char *cfg) { (void)p; (void)seed; (void)cfg; }
-static void r(const plan *p) { (void)p; }
-const engine eng_mempool = { .name = "mempool", .props = "", .gen = g, .run = r, .rule = "stub" };
+#include "baton.h"
+#include <stdlib.h>
+#include <string.h>
+#include <pthread.h>
+#include "cmi_mempool.h"
+#include "cmb_logger.h"
+
+static const size_t SZ[] = { 8, 16, 24, 40, 64, 512, 2048, 4096, 8192 };
+static const uint64_t NUM[] = { 1, 2, 3, 7, 64, 100, 1 };
+#define NSZ (sizeof SZ / sizeof SZ[0])
+#define NNUM (sizeof NUM / sizeof NUM[0])
+#define MAXLIVE 40000
+
+typedef struct { unsigned char *p; uint32_t serial; int owner; } lent;
+static lent *led;           /* sorted by address */
+static int nled;
+static uint32_t serial;
+static size_t objsz;
+static uint64_t allocs_total;
+static bool crossed64, crossed_incr;
+
+/* static thread-local pools, one per size class (each thread gets its own instance) */
+static CMB_THREAD_LOCAL struct cmi_mempool sp0 = CMI_MEMPOOL_STATIC_INIT(8, 1);
+static CMB_THREAD_LOCAL struct cmi_mempool sp1 = CMI_MEMPOOL_STATIC_INIT(16, 3);
+static CMB_THREAD_LOCAL struct cmi_mempool sp2 = CMI_MEMPOOL_STATIC_INIT(24, 100);
+static CMB_THREAD_LOCAL struct cmi_mempool sp3 = CMI_MEMPOOL_STATIC_INIT(40, 7);
+static CMB_THREAD_LOCAL struct cmi_mempool sp4 = CMI_MEMPOOL_STATIC_INIT(64, 64);
+static CMB_THREAD_LOCAL struct cmi_mempool sp5 = CMI_MEMPOOL_STATIC_INIT(512, 2);
+static CMB_THREAD_LOCAL struct cmi_mempool sp6 = CMI_MEMPOOL_STATIC_INIT(2048, 1);
+static CMB_THREAD_LOCAL struct cmi_mempool sp7 = CMI_MEMPOOL_STATIC_INIT(4096, 1);
+static CMB_THREAD_LOCAL struct cmi_mempool sp8 = CMI_MEMPOOL_STATIC_INIT(8192, 1);
+static struct cmi_mempool *static_pool(int szi)
+{
+    switch (szi) { case 0: return &sp0; case 1: return &sp1; case 2: return &sp2; case 3: return &sp3; case 4: return &sp4;
+                   case 5: return &sp5; case 6: return &sp6; case 7: return &sp7; default: return &sp8; }
+}
+
+static unsigned char stamp_byte(const unsigned char *p, uint32_t ser, size_t off)
+{
+    return (unsigned char)(((uintptr_t)p >> 3) * 31u + ser * 131u + off * 7u + 0x5a);
+}
+static void stamp(unsigned char *p, uint32_t ser) { for (size_t o = 0; o < objsz; o++) p[o] = stamp_byte(p, ser, o); }
+static bool stamp_ok(const unsigned char *p, uint32_t ser)
+{
+    for (size_t o = 0; o < objsz; o++) if (p[o] != stamp_byte(p, ser, o)) return false;
+    return true;
+}
+static int lower_bound(const unsigned char *p)
+{
+    int lo = 0, hi = nled;
+    while (lo < hi) { const int mid = (lo + hi) / 2; if (led[mid].p < p) lo = mid + 1; else hi = mid; }
+    return lo;
+}
+
+static void do_alloc(struct cmi_mempool *mp, int owner)
+{
+    if (nled >= MAXLIVE) return;
+    const uint64_t chunks0 = mp->chunk_list_cnt;
+    unsigned char *p = cmi_mempool_alloc(mp);
+    allocs_total++;
+    if (mp->cookie == CMI_INITIALIZED && mp->chunk_list_cnt != chunks0) {
+        crossed_incr = true; PROBE("mp.expand");
+        if (mp->chunk_list_cnt >= 64) { crossed64 = true; PROBE("mp.chunks_ge_64"); }
+        if (mp->chunk_list_cnt >= 128) PROBE("mp.chunks_ge_128");
+    }
+    if (p == NULL) { viol("C20", "alloc-null", "alloc returned NULL"); return; }
+    if (((uintptr_t)p & 7u) != 0) viol("C20", "misaligned", "alloc returned %p, not 8-byte aligned", (void *)p);
+    const int pos = lower_bound(p);
+    if (pos < nled && led[pos].p == p) { viol("C20", "handed-out-twice", "alloc returned %p which is still allocated (live=%d)", (void *)p, nled); return; }
+    if (pos < nled && p + objsz > led[pos].p) { viol("C20", "overlap", "object %p+%zu overlaps live object %p", (void *)p, objsz, (void *)led[pos].p); return; }
+    if (pos > 0 && led[pos - 1].p + objsz > p) { viol("C20", "overlap", "object %p overlaps live object %p+%zu", (void *)p, (void *)led[pos - 1].p, objsz); return; }
+    memmove(&led[pos + 1], &led[pos], (size_t)(nled - pos) * sizeof(lent));
+    led[pos].p = p; led[pos].serial = ++serial; led[pos].owner = owner;
+    nled++;
+    stamp(p, led[pos].serial);
+    TR2("alloc", owner, nled);
+}
+
+static void do_free(struct cmi_mempool *mp, int owner, uint64_t sel)
+{
+    if (nled == 0) return;
+    /* pick the first object owned by `owner` at or after position sel (cyclic) */
+    int pos = -1;
+    for (int k = 0; k < nled; k++) { const int c = (int)((sel + (uint64_t)k) % (uint64_t)nled); if (led[c].owner == owner) { pos = c; break; } }
+    if (pos < 0) return;
+    if (!stamp_ok(led[pos].p, led[pos].serial)) { viol("C20", "contents-changed", "object %p lost its contents before being freed", (void *)led[pos].p); }
+    cmi_mempool_free(mp, led[pos].p);
+    memmove(&led[pos], &led[pos + 1], (size_t)(nled - pos - 1) * sizeof(lent));
+    nled--;
+    TR2("free", owner, nled);
+}
+
+static void verify_all(const char *where)
+{
+    for (int i = 0; i < nled; i++)
+        if (!stamp_ok(led[i].p, led[i].serial)) { viol("C20", "contents-changed", "%s: live object %p (owner %d) lost its contents", where, (void *)led[i].p, led[i].owner); return; }
+}
+
+typedef struct { const plan *p; int me; int kind; int szi; int numi; } targ;
+
+static void interpret(const plan *p, struct cmi_mempool *mp, int me, int kind)
+{
+    for (int li = 0; li < p->n && g_nviol == 0; li++) {
+        const pline *l = &p->l[li];
+        if (pis(l, "INIT")) continue;
+        const int t = (kind == 2) ? (int)(((uint64_t)pa(l, pis(l, "F") ? 2 : 1)) % 2) : 0;
+        if (kind == 2 && t != me) continue;
+        if (pis(l, "A")) {
+            int64_t n = pa(l, 0); if (n < 0) n = -n; if (n > 40000) n = 40000;
+            for (int64_t k = 0; k < n && g_nviol == 0; k++) do_alloc(mp, me);
+        } else if (pis(l, "F")) {
+            int64_t n = pa(l, 1); if (n < 0) n = -n; if (n > 40000) n = 40000;
+            for (int64_t k = 0; k < n; k++) do_free(mp, me, (uint64_t)pa(l, 0) + (uint64_t)k * 7u);
+        } else if (pis(l, "V")) {
+            verify_all("verify");
+        }
+        g_stats.events++;
+        if (kind == 2) baton_yield();
+    }
+}
+
+static void *thread_body(void *vp)
+{
+    targ *a = vp;
+    struct cmi_mempool *mp = static_pool(a->szi);
+    interpret(a->p, mp, a->me, a->kind);
+    /* the other thread's objects must survive this thread's exit */
+    if (a->kind == 2) baton_yield();
+    /* free my own objects from the ledger, then clean the thread-local pools up as a worker thread does */
+    for (int i = 0; i < nled; ) {
+        if (led[i].owner == a->me) {
+            if (!stamp_ok(led[i].p, led[i].serial)) viol("C20", "contents-changed", "thread exit: object %p lost its contents", (void *)led[i].p);
+            memmove(&led[i], &led[i + 1], (size_t)(nled - i - 1) * sizeof(lent)); nled--;
+        } else i++;
+    }
+    cmi_mempool_cleanup(NULL);
+    verify_all("after other thread's cleanup");
+    return NULL;
+}
+
+static void mp_run(const plan *p)
+{
+    cmb_logger_flags_off(CMB_LOGGER_INFO | CMB_LOGGER_WARNING);
+    if (!led) led = malloc(sizeof(lent) * (MAXLIVE + 1));
+    nled = 0; serial = 0; allocs_total = 0; crossed64 = crossed_incr = false;
+    int szi = 0, numi = 0, kind = 0; uint64_t sched = 1;
+    for (int i = 0; i < p->n; i++) if (pis(&p->l[i], "INIT")) {
+        szi = (int)((uint64_t)pa(&p->l[i], 0) % NSZ); numi = (int)((uint64_t)pa(&p->l[i], 1) % NNUM);
+        kind = (int)((uint64_t)pa(&p->l[i], 2) % 3); sched = (uint64_t)pa(&p->l[i], 3); break;
+    }
+    objsz = SZ[szi];
+    if (kind == 0) {
+        struct cmi_mempool *mp = cmi_mempool_create();
+        cmi_mempool_initialize(mp, objsz, NUM[numi]);
+        interpret(p, mp, 0, 0);
+        verify_all("end");
+        cmi_mempool_destroy(mp);
+    } else {
+        targ a[2] = { { p, 0, kind, szi, numi }, { p, 1, kind, szi, numi } };
+        baton_begin(sched, 60);
+        baton_spawn(thread_body, &a[0]);
+        if (kind == 2) baton_spawn(thread_body, &a[1]);
+        baton_run_all();
+        baton_end();
+        g_stats.faults = baton_switches();
+    }
+    g_stats.nontrivial = crossed_incr && allocs_total >= 8;
+    if (crossed64) PROBE("mp.runs_crossing_64_chunks");
+}
+
+static void mp_gen(plan *p, uint64_t seed, const char *cfg)
+{
+    vrng r; vrng_seed(&r, seed);
+    int kind = (int)vrng_below(&r, 3);
+    const char *c = strstr(cfg, "kind=");
+    if (c) kind = atoi(c + 5);
+    int szi = (int)vrng_below(&r, NSZ), numi = (int)vrng_below(&r, NNUM);
+    const bool big = vrng_chance(&r, 1, 5);           /* aim at the 64-chunk threshold */
+    if (big && kind == 0) { szi = 5 + (int)vrng_below(&r, 4); numi = (int)vrng_below(&r, 3); }
+    if (big && kind != 0) { szi = 5 + (int)vrng_below(&r, 4); }
+    plan_add(p, "INIT", 4, (int64_t)szi, (int64_t)numi, (int64_t)kind, (int64_t)(vrng_next(&r) >> 20));
+    const int n = 4 + (int)vrng_below(&r, 40);
+    for (int i = 0; i < n; i++) {
+        const unsigned k = (unsigned)vrng_below(&r, 100);
+        const int64_t t = (int64_t)vrng_below(&r, 2);
+        if (k < 50) {
+            int64_t cnt = 1 + (int64_t)vrng_below(&r, 12);
+            if (big && vrng_chance(&r, 1, 3)) cnt = 50 + (int64_t)vrng_below(&r, 120);
+            if (vrng_chance(&r, 1, 40)) cnt = 500 + (int64_t)vrng_below(&r, 1500);
+            plan_add(p, "A", 2, cnt, t);
+        } else if (k < 88) plan_add(p, "F", 3, (int64_t)vrng_below(&r, 1000), (int64_t)(1 + vrng_below(&r, vrng_chance(&r, 1, 6) ? 100 : 8)), t);
+        else plan_add(p, "V", 2, (int64_t)0, t);
+    }
+}
+
+const engine eng_mempool = {
+    .name = "mempool", .props = "C20", .gen = mp_gen, .run = mp_run,
+    .rule = "histories with >= 8 allocations that forced at least one pool expansion",
+};
